@@ -124,8 +124,10 @@ def rule_utc(ctx):
 def rule_pandas(ctx):
     prog = ctx.prog
     m = prog.mod("pandas_tools")
-    fn = prog.fn("pandas_tools", "_insert_df")
-    ctx.analysed("pandas_tools._insert_df", "pandas_tools.write_pandas")
+    from ..roles import roles
+    helper = roles(prog).insert_frame
+    fn = prog.fn("pandas_tools", helper)
+    ctx.analysed(f"pandas_tools.{helper}", "pandas_tools.write_pandas")
 
     hooks = []
 
@@ -137,7 +139,7 @@ def rule_pandas(ctx):
     def run(I):
         duck = Obj("duck", kind="duck")
         df = Obj("df", kind="df")
-        return I.call(I.global_lookup("pandas_tools", "_insert_df"), [duck, df, Sym("TABLE_NAME", typ="str", truthy=True)], {}, None)
+        return I.call(I.global_lookup("pandas_tools", helper), [duck, df, Sym("TABLE_NAME", typ="str", truthy=True)], {}, None)
 
     n = 0
     for p, h in zip(explore(prog, fac, run, max_paths=32), hooks):
@@ -345,6 +347,34 @@ def rule_pandas_whole_frame(ctx):
     ctx.floor("C01.c3 frame x chunk_size evaluations", n_eval, 30)
 
 
+def rule_pandas_non_destructive(ctx):
+    """C01.c4: unless the caller asks to overwrite, write_pandas only adds rows: none of its own statements replaces, drops,
+    truncates or deletes (auto_create_table creates the table when it is missing — IF NOT EXISTS — and keeps what is there)."""
+    from .c19 import write_pandas_statements
+
+    prog = ctx.prog
+    m = prog.mod("pandas_tools")
+    fn = prog.fn("pandas_tools", "write_pandas")
+    n = 0
+    seen = set()
+    for label, kw in (("auto_create_table=True", {"auto_create_table": Const(True)}),
+                      ("auto_create_table=True, overwrite=False", {"auto_create_table": Const(True), "overwrite": Const(False)}),
+                      ("defaults", {})):
+        for texts in write_pandas_statements(prog, **kw):
+            n += 1
+            for txt in texts:
+                bad = re.match(r"(CREATE\s+OR\s+REPLACE|DROP|TRUNCATE|DELETE)\b", txt, re.I)
+                if (label, txt) in seen:
+                    continue
+                seen.add((label, txt))
+                ctx.ob("C01.c4", f"write_pandas({label}): `{txt[:40]}` keeps the rows already in the table", not bad, m.loc(fn))
+                if bad:
+                    ctx.violation("C01.c4", "pandas_tools", "write_pandas", f"{label}: destructive statement {bad.group(1).upper()}", m.loc(fn),
+                                  f"write_pandas({label}) issues `{txt[:70]}`: rows written earlier (a previous batch, or a table created by SQL) are "
+                                  f"silently discarded although the caller did not ask to overwrite")
+    ctx.floor("C01.c4 write_pandas paths", n, 3)
+
+
 def rule_transformed_before_executed(ctx):
     prog = ctx.prog
     n = 0
@@ -387,5 +417,6 @@ RULES = [
     ("C01.c", rule_pandas, ("quick", "thorough")),
     ("C01.c2", rule_pandas_target, ("quick", "thorough")),
     ("C01.c3", rule_pandas_whole_frame, ("quick", "thorough")),
+    ("C01.c4", rule_pandas_non_destructive, ("quick", "thorough")),
     ("C01.d", rule_transformed_before_executed, ("quick", "thorough")),
 ]
